@@ -158,7 +158,8 @@ CHECKS = {
         units=[dict(name="sequential", test="TestC01", checks=(6000, 400000), shards=(4, 14), timeout=(240, 3000)),
                dict(name="concurrent", test="TestC01Concurrent", checks=(2400, 150000), shards=(4, 14), timeout=(240, 3000)),
                dict(name="in-process", test="TestC01Inproc", checks=(3600, 200000), shards=(4, 14), timeout=(240, 3000)),
-               dict(name="fanout-churn", test="TestC01Churn", checks=(2000, 150000), shards=(4, 14), timeout=(240, 3000))]),
+               dict(name="fanout-churn", test="TestC01Churn", checks=(2000, 150000), shards=(4, 14), timeout=(240, 3000)),
+               dict(name="unacked-resume", test="TestC01Resume", checks=(1200, 100000), shards=(4, 14), timeout=(240, 3000))]),
 
     "C02": dict(
         pkg="p_broker", level="exploration",
